@@ -544,7 +544,9 @@ Build ==
   \/ CloseSection(DecoPick(cnt.secs + cnt.opts))
 \* quick export: one copy mode per description (all four in the other modes)
 CopyPick == IF Mode = "gen" THEN {<<"clone", "null", "empty", "props">>[((cnt.secs + cnt.opts) % 4) + 1]} ELSE CopyModes
-Next == Build \/ (\E m \in CopyPick : Probe("copy", m)) \/ Probe("dump", "") \/ CLoad \/ Inst
+Odd == (cnt.secs + cnt.opts) % 2 = 1
+Next == Build \/ (\E m \in CopyPick : Probe("copy", m)) \/ CLoad
+              \/ ((Mode # "gen" \/ Odd) /\ Probe("dump", "")) \/ ((Mode # "gen" \/ ~Odd) /\ Inst)
 Spec == Init /\ [][Next]_vars
 
 ---------------------------------------------------------------------------
